@@ -263,6 +263,15 @@ fn drive<C: StorageConfig, S: Settings>(config: C, settings: &S, math: &CpuMath<
                 let _ = ch.inspect().map_err(|e| format!("inspect(chain {c}, row {r}): {e:#}"))?;
             }
         }
+        // the trace-level inspect (what Sampler::inspect does) in the middle of the recording and once more right
+        // after it: neither may disturb what is finalised later
+        if r == max_rows / 2 || r + 1 == max_rows {
+            let parts: Vec<_> = chains.iter().map(|ch| ch.inspect()).collect();
+            match trace.inspect(parts).map_err(|e| format!("trace inspect after row {r}: {e:#}"))? {
+                (Some(e), _) => return Err(format!("trace inspect after row {r} reported: {e:#}")),
+                (None, _) => {}
+            }
+        }
     }
     let finals: Vec<_> = chains.into_iter().map(|ch| ch.finalize()).collect();
     match trace.finalize(finals).map_err(|e| format!("finalize: {e:#}"))? {
@@ -978,11 +987,24 @@ where
                 Err(e) => return Err(format!("abort failed: {e:#}")),
             }
         }
-        None => match sampler.wait_timeout(Duration::from_secs(60)) {
+        None => {
+            if c.delay_seed % 3 == 0 {
+                // inspect a running (or already finished) sampler; the final trace must not be affected
+                match sampler.inspect() {
+                    Ok((None, _)) => {}
+                    Ok((Some(e), _)) => return Err(format!("inspect reported: {e:#}")),
+                    Err(e) => return Err(format!("inspect failed: {e:#}")),
+                }
+                if c.delay_seed % 6 == 0 {
+                    std::thread::sleep(Duration::from_millis(2));
+                    let _ = sampler.inspect();
+                }
+            }
+            match sampler.wait_timeout(Duration::from_secs(60)) {
             SamplerWaitResult::Trace(t) => t,
             SamplerWaitResult::Timeout(_) => return Err("HANG: wait_timeout(60 s) returned Timeout".into()),
             SamplerWaitResult::Err(e, _) => return Err(format!("sampling failed: {e:#}")),
-        },
+        }},
     };
     Ok((fin, collect_rows(&rows, c.num_chains)))
 }
